@@ -465,6 +465,8 @@ def step_dict(ctx, g, h, sh, rng):
 
     def clone(x, doff=0, attr=False):
         at = set(x.attributes) | ({g.SymbolicExpression.Attribute.GOT} if attr else set())
+        if isinstance(x, g.SymAddrAddr):
+            return g.SymAddrAddr(x.scale, x.offset + doff, x.symbol1, x.symbol2, at)
         return g.SymAddrConst(x.offset + doff, x.symbol, at)
     item = None
     if m == "set" and k in s and rng.random() < 0.4:
